@@ -146,6 +146,27 @@ def _replay_wyckoff_params(sg, letter, params=None):
     occ = [(letter, 29, params)]
     atoms = pinned_probe(sg, occ, npin=2)
     res = {"probe": {"sg": sg, "occupied": [o[0] for o in occ], "parameters": params or "default", "natoms": len(atoms)}}
+    return check_wyckoff_params(atoms, res)
+
+
+def replay_wyckoff_supercells():
+    """the same question for crystals given as supercells whose lattice is not invariant under the whole point group"""
+    from ase.build import make_supercell
+    for sg in (75, 143, 81, 16):
+        L = _chiral_probe(sg)
+        base = pinned_probe(sg, [(L[0], 6, None), (L[min(2, len(L) - 1)], 32, None)], npin=1)
+        for P in ([[2, 0, 0], [0, 1, 0], [0, 0, 1]], [[1, 0, 0], [0, 2, 0], [0, 0, 1]], [[2, 0, 0], [0, 1, 0], [0, 0, 2]]):
+            at = make_supercell(base, P)
+            if len(at) > 200:
+                continue
+            r = check_wyckoff_params(at, {"probe": {"sg": sg, "supercell": P, "natoms": len(at)}})
+            if r.get("reproduced") and r.get("detected_sg") == sg:
+                return r
+    return {"reproduced": False}
+
+
+def check_wyckoff_params(atoms, res):
+    INFO, WY, NZ = tabvc.load_tables()
     try:
         a = analyze(atoms)
         res["detected_sg"] = int(a.get_space_group_number())
@@ -230,11 +251,14 @@ def replay_normalizer(sg, index):
 
     letters = _chiral_probe(sg)
     tried = 0
-    for r in (1, 2):
-        for combo in itertools.combinations(letters, r):
-            occ = [(L, Z, None) for L, Z in zip(combo, [14, 8])]
+    PP = ({"x": 0.2113, "y": 0.0687, "z": 0.3391}, {"x": 0.0641, "y": 0.3727, "z": 0.1583})
+    cases = [(combo, zs) for r in (1, 2) for combo in itertools.combinations(letters[:-1] or letters, r) for zs in (([29, 47], [47, 29]) if r == 2 else ([29],))]
+    for combo, zs in cases:
+        if True:
+            # the general position of a third species pins the group; the extra orbits have their own free parameters
+            occ = [(L, Z, P) for L, Z, P in zip(combo, zs, PP)]
             try:
-                atoms = probe(sg, occ)
+                atoms = pinned_probe(sg, occ, npin=1)
                 if len(atoms) > 300:
                     continue
                 a = analyze(atoms)
@@ -252,7 +276,7 @@ def replay_normalizer(sg, index):
                             "observed": "letters %s differ from independent assignment %s" % (sorted(set(mine)), sorted(set(ds.wyckoffs)))}
             except Exception as ex:
                 return {"reproduced": True, "probe": {"sg": sg, "occupied": combo}, "observed": "%s: %s" % (type(ex).__name__, str(ex)[:200])}
-            if tried > 60:
+            if tried > 90:
                 break
     return {"reproduced": False, "note": "entry is never selected / not observable on %d probes" % tried}
 
